@@ -606,7 +606,8 @@ func runCase(c map[string]any) any {
 		moves = nil
 		r := hx.Guard(func() any {
 			switch op["op"] {
-			case "fwd":
+			case "fwd", "reserve":
+				reserve := op["op"] == "reserve"
 				seqs, toks := ints(op["seqs"]), ints(op["toks"])
 				pos := make([]int32, len(seqs))
 				for i, p := range ints(op["pos"]) {
@@ -618,7 +619,7 @@ func runCase(c map[string]any) any {
 				if hasImg {
 					batch.Multimodal = []input.MultimodalIndex{{Index: num(img["at"])}}
 				}
-				err := w.top.StartForward(ctx, batch, false)
+				err := w.top.StartForward(ctx, batch, reserve)
 				if err != nil {
 					if errors.Is(err, kvcache.ErrKvCacheFull) {
 						st["err"] = "full"
@@ -660,7 +661,12 @@ func runCase(c map[string]any) any {
 					k, v, m := w.top.Get(ctx)
 					gots[l] = got{k.(*tensor), v.(*tensor), m.(*tensor)}
 				}
-				ctx.Compute()
+				if reserve {
+					// a reservation pass: the graph is never executed (the mask is an input, built by the cache itself)
+					_ = ctx.Reserve()
+				} else {
+					ctx.Compute()
+				}
 				var fw []any
 				for _, s := range w.subs {
 					loc, mn, mx := s.c.C06Cur()
